@@ -81,6 +81,25 @@ def run(tier):
         if not ok: R.violation('X-throw', '%s' % q.replace(T, ''), 'throws %s at %s: the URI grammar may end in an exception other than parse_error' % (tt, loc))
     if allowed < 1: R.broke('no raise site reachable from the URI rules (the grammar uses if_must: anchor vanished?)')
     R.cov['throw_sites_in_instantiations'] = allowed
+    # dec-octet: maximum_rule< uint8_t > enters the language comparison by its specification; tie the code to that specification
+    from . import c15
+    from .. import ranges
+    ipaths = core.extract(list(units.INTEGER)); idb = core.DB(ipaths)
+    nd = 0
+    for fn in idb.order:
+        if fn['n'] == 'match' and (fn.get('cls') or {}).get('s') == T + "maximum_rule<unsigned char, '\\xff'>":
+            nd += 1
+            res = c15.scan_one(idb, fn['u'], 3)
+            R.ob(ok=not res.get('probs') and not res.get('broken'), key=('dec_octet-scan', fn['disp']))
+            if res.get('broken'): R.broke('dec_octet scanner: ' + res['broken'])
+            for pr in (res.get('probs') or [])[:4]:
+                R.violation(pr[0], 'contrib/integer.hpp::maximum_rule::match', 'dec-octet: ' + pr[1], key=('dec', pr[1]))
+        if fn['q'] == T + 'internal::accumulate_digit' and fn['ta'][0].get('s') == 'unsigned char' and fn['ta'][1].get('v') in (255, -1):
+            nd += 1
+            probs, info = ranges.check_accumulate_digit(idb, fn)
+            R.ob(ok=not probs, key=('dec_octet-range', fn['disp']))
+            for pr in probs: R.violation('G-range', 'contrib/integer.hpp::internal::accumulate_digit', 'dec-octet: ' + pr, key=('decr', pr))
+    if nd < 2: R.broke('maximum_rule< uint8_t > / accumulate_digit< uint8_t, 255 > instantiations not found')
     R.assumptions = ['the formal meaning of the internal rule templates (sa/typegraph.py) is what C01/C09/C10 establish for them; maximum_rule< uint8_t > enters by its specification (decimal <= 255 without leading zeros, all digits consumed)',
                      'RFC 3986 Appendix A transcribed in sa/spec/rfc3986.py']
     return R.finish(
